@@ -264,6 +264,17 @@ fn value_families(thorough: bool) -> Vec<(String, MetadataWrapper)> {
             b[pos] ^= 1;
             values.push((format!("64-differs-at-{n}"), b));
         }
+        // digests longer than any the library computes itself (the format sets no length): 65, 80
+        // and 128 bytes, and 128-byte values that differ in one byte past the 64th only
+        let long128: Vec<u8> = [util::sha512(&[1]), util::sha512(&[2])].concat();
+        for len in [65usize, 80, 127, 128] {
+            values.push((format!("len{len}"), long128[..len].to_vec()));
+        }
+        for pos in [64usize, 65, 79, 100, 127] {
+            let mut b = long128.clone();
+            b[pos] ^= 1;
+            values.push((format!("128-differs-at-byte{pos}"), b));
+        }
         let one = |alg: HashAlgorithm, v: &[u8]| -> TargetDescription {
             let mut d = TargetDescription::new();
             d.insert(alg, HashValue::new(v.to_vec()));
@@ -273,6 +284,7 @@ fn value_families(thorough: bool) -> Vec<(String, MetadataWrapper)> {
         for (n, v) in &values {
             out.push((format!("digest sha256 {n}"), link_of(one(HashAlgorithm::Sha256, v))));
             out.push((format!("digest sha512 {n}"), link_of(one(HashAlgorithm::Sha512, v))));
+            out.push((format!("digest shake256-1024 {n}"), link_of(one(HashAlgorithm::Unknown("shake256-1024".into()), v))));
             let mut two = one(HashAlgorithm::Sha256, &world::h(1));
             two.insert(HashAlgorithm::Sha512, HashValue::new(v.clone()));
             out.push((format!("digest sha256 fixed + sha512 {n}"), link_of(two)));
@@ -807,7 +819,7 @@ pub fn run(tier: Tier) -> i32 {
     let _ = KeyId::from_str;
     crate::envprobe::judge(&mut acc, "C05:", &mut c.extra);
     c.acc = acc;
-    c.rule = "(a) metadata values from the field alphabets (every string field x critical and wide strings, splits of one string across adjacent fields, structural near-collisions, thresholds x pubkey lists x key tables, expiry seconds, every rule form in every position, repeated steps / inspections / key ids / rules / arguments, digests of 8 lengths and with single-byte differences in one- and two-algorithm maps, tables of two / three artifacts over 7 digest-map shapes each, key-table entries over one key material with 5 hash-algorithm lists / 2 schemes, 7 key tables as the in-memory API can file them (own ids, swapped, under zeros, under another spelling), strings of 15..1025 (70001) characters) signed with one Ed25519 key: unequal values must give different signatures; canonical encodings of the C10 value grammar pairwise distinct; (b) every single-field edit (incl. every digest byte and every rule token, and for every leaf: strings re-spelled in 18 ways, integers +-1 / negated / +2^8..+2^63 / -2^32, null <-> empty, member removed) of a signed layout and four signed links, for 5 signer sets, must fail verification and pass again when undone. distinct_nontrivial = distinct signed byte strings + distinct canonical encodings + edits that change the parsed value".into();
+    c.rule = "(a) metadata values from the field alphabets (every string field x critical and wide strings, splits of one string across adjacent fields, structural near-collisions, thresholds x pubkey lists x key tables, expiry seconds, every rule form in every position, repeated steps / inspections / key ids / rules / arguments, digests of 12 lengths (0 .. 128 bytes) under three algorithm names and with single-byte differences (also past the 64th byte only) in one- and two-algorithm maps, tables of two / three artifacts over 7 digest-map shapes each, key-table entries over one key material with 5 hash-algorithm lists / 2 schemes, 7 key tables as the in-memory API can file them (own ids, swapped, under zeros, under another spelling), strings of 15..1025 (70001) characters) signed with one Ed25519 key: unequal values must give different signatures; canonical encodings of the C10 value grammar pairwise distinct; (b) every single-field edit (incl. every digest byte and every rule token, and for every leaf: strings re-spelled in 18 ways, integers +-1 / negated / +2^8..+2^63 / -2^32, null <-> empty, member removed) of a signed layout and four signed links, for 5 signer sets, must fail verification and pass again when undone. distinct_nontrivial = distinct signed byte strings + distinct canonical encodings + edits that change the parsed value".into();
     c.bound_completed = format!("critical strings <= {}, wide strings <= {}, split words <= {}", if tier.thorough() { 4 } else { 3 }, if tier.thorough() { 2 } else { 1 }, if tier.thorough() { 4 } else { 3 });
     c.assume("Ed25519 signing by a fixed key is deterministic and collision-free on distinct messages, so equal signatures <=> equal signed bytes");
     c.assume("unequal = PartialEq on the parsed metadata (expiry enumerated at whole seconds)");
